@@ -114,6 +114,48 @@ fn gen_exts(rng: &mut Rng) -> Vec<u8> {
     }
     v
 }
+/// extension blocks aimed at the walks in `handle_client_hello` / `handle_server_hello`: use_srtp (14) with list-length
+/// fields that disagree with the body (0, 1, odd, larger than the data, 0xFFFF), short bodies, length overruns
+pub fn gen_exts_hostile(rng: &mut Rng) -> Vec<u8> {
+    let mut v = vec![];
+    for _ in 0..rng.range(1, 3) {
+        let t = *rng.pick(&[14u16, 14, 14, 23, 13, 10]);
+        let body: Vec<u8> = if t == 14 {
+            let n = rng.below(7) as usize;
+            let claimed = *rng.pick(&[0u16, 1, 2, 3, n as u16, n as u16 + 1, n as u16 + 2, 2 * n as u16, 0xFFFF]);
+            let mut b = claimed.to_be_bytes().to_vec(); b.extend(rng.bytes(n));
+            if rng.chance(1, 5) { b.truncate(rng.below(3) as usize); }
+            b
+        } else { let n = rng.below(5) as usize; rng.bytes(n) };
+        v.extend_from_slice(&t.to_be_bytes());
+        let l = match rng.below(8) { 0 => body.len() as u16 + 1, 1 => 0xFFFF, _ => body.len() as u16 };
+        v.extend_from_slice(&l.to_be_bytes()); v.extend(body);
+    }
+    if rng.chance(1, 6) { v.truncate(rng.below(v.len() as u64 + 1) as usize); }
+    v
+}
+pub fn hostile_client_hello(rng: &mut Rng) -> Vec<u8> {
+    let h = ClientHello { version: ProtocolVersion::DTLS_1_2, random: rnd(rng), session_id: vec![], cookie: vec![],
+        cipher_suites: vec![0xC02B, 0xC02F], compression_methods: vec![0], extensions: gen_exts_hostile(rng) };
+    let mut b = BytesMut::new(); h.encode(&mut b); b.to_vec()
+}
+pub fn hostile_server_hello(rng: &mut Rng) -> Vec<u8> {
+    let h = ServerHello { version: ProtocolVersion::DTLS_1_2, random: rnd(rng), session_id: vec![], cipher_suite: 0xC02B, compression_method: 0, extensions: gen_exts_hostile(rng) };
+    let mut b = BytesMut::new(); h.encode(&mut b); b.to_vec()
+}
+/// one epoch-0 handshake record carrying the given (type, message_seq, body) messages unfragmented
+pub fn handshake_record(msgs: &[(HandshakeType, u16, Vec<u8>)], rec_seq: u64) -> Vec<u8> {
+    let mut body = BytesMut::new();
+    for (t, seq, b) in msgs {
+        HandshakeMessage { msg_type: *t, total_length: b.len() as u32, message_seq: *seq, fragment_offset: 0, fragment_length: b.len() as u32, body: Bytes::from(b.clone()) }.encode(&mut body);
+    }
+    let mut out = BytesMut::new();
+    DtlsRecord { content_type: ContentType::Handshake, version: ProtocolVersion::DTLS_1_2, epoch: 0, sequence_number: rec_seq, payload: body.freeze() }.encode(&mut out);
+    out.to_vec()
+}
+pub fn gen_cert_pub(rng: &mut Rng) -> Vec<u8> { gen_cert(rng) }
+pub fn gen_ske_pub(rng: &mut Rng) -> Vec<u8> { gen_ske(rng) }
+
 pub fn gen_client_hello(rng: &mut Rng) -> Vec<u8> {
     let sl = *rng.pick(&[0usize, 0, 8, 32]); let cl = *rng.pick(&[0usize, 0, 20, 32]);
     let h = ClientHello { version: ProtocolVersion::DTLS_1_2, random: rnd(rng), session_id: rng.bytes(sl), cookie: rng.bytes(cl),
